@@ -86,6 +86,7 @@ theorem neutral_run {now : Nat} {classic : Bool} {A : Op → Prop} {l l' : FLink
   | take _ _ ih => exact ih.trans (sameW_take _ now)
   | mark ha => exact absurd rfl (hA _ ha).1
   | reconnect ha => exact absurd rfl (hA _ ha).2.1
+  | attemptFail ha => exact absurd rfl (hA _ ha).1
   | reg3 ha => exact absurd rfl (hA _ ha).2.2.1
   | kaSend _ _ ih => exact ih
   | recover ha => exact absurd rfl (hA _ ha).2.2.2.1
